@@ -127,6 +127,9 @@ func c13(r *rep.Run) {
 			}
 		}
 	}
+	// words that mean something to the compiler, the printer or the lexer, as plain data
+	strs = append(strs, "fi", "if", "and", "or", "not", "true", "false", "T", "F", "DNE", "eventNode", "()", "(1 2)", "nil", "<nil>", "0", "-1", "1.5", "KL", "s", "b",
+		"let", "map", "in", "version", ";;;;optimize:false", "fi ", " fi", "FI")
 	ints := []int64{0, -1, math.MinInt64, math.MaxInt64, 42}
 	sv := []term.VarDecl{{Name: "s", Ty: term.TS}, {Name: "b", Ty: term.TB}, {Name: "ls", Ty: term.TSL}}
 	var cases []*c13case
@@ -145,6 +148,12 @@ func c13(r *rep.Run) {
 		} {
 			cases = append(cases, &c13case{src: src, consts: map[string]interface{}{"KL": L, "KLL": []string{L, "z"}}, vars: sv, binds: binds, what: fmt.Sprintf("%q", L)})
 		}
+	}
+	// variables and operators named like internal markers
+	wv := []term.VarDecl{{Name: "fi", Ty: term.TS}, {Name: "eventNode", Ty: term.TB}, {Name: "DNE", Ty: term.TS}}
+	wb := [][]interface{}{{"fi", true, "x"}, {"x", false, "fi"}}
+	for _, src := range []string{`(= fi "fi")`, `(if eventNode fi DNE)`, `(and (= fi DNE) eventNode)`, `(= DNE (if (= fi "fi") "fi" "if"))`, `(in fi ("fi" "if" "fi"))`, `(or eventNode (= "fi" fi) (= DNE "DNE"))`} {
+		cases = append(cases, &c13case{src: src, vars: wv, binds: wb, what: "marker words as names"})
 	}
 	iv := []term.VarDecl{{Name: "n", Ty: term.TI}, {Name: "li", Ty: term.TIL}}
 	for _, I := range ints {
@@ -202,6 +211,21 @@ func c13(r *rep.Run) {
 	})
 	// (2) structural corpus
 	progs, _ := corpus(progMax, progMax)
+	// every shape of nested if / fast operator / and up to 8 nodes over a tiny alphabet
+	ifAlpha := &term.Alphabet{
+		Leaves: map[term.Ty][]*term.Term{B: {term.Var("b", B)}, I: {term.Var("n", I), term.Const(1)}},
+		Ops: []term.OpSig{{Name: "if", Args: []term.Ty{B, I, I}, Ret: I, If: true}, {Name: "if", Args: []term.Ty{B, B, B}, Ret: B, If: true},
+			sig("+", I, I, I), sig("and", B, B, B), sig("=", B, I, I)},
+	}
+	ifMax := 8
+	if r.Thorough() {
+		ifMax = 9
+	}
+	for _, p := range Programs(ifAlpha, []term.Ty{B, I}, ifMax) {
+		if p.Size > progMax && strings.Contains(p.Src, "(if") {
+			progs = append(progs, p)
+		}
+	}
 	r.Cov["programs"] = len(progs)
 	r.ParallelFor(len(progs), func(w, i int) {
 		p := progs[i]
